@@ -30,6 +30,7 @@ type dmScenState struct {
 	structT *dmTy             // a struct type of the contract without function fields (storable), or nil
 	steps   []dmStep
 	hasExt  bool // the contract has the updated function
+	foreign bool // values of the second contract's types may be in storage
 }
 
 func dmStorableStruct(c *dmComp) bool {
@@ -190,6 +191,9 @@ func (g *dmGen) scenario() *dmScenario {
 				st.steps = append(st.steps, dmStep{Kind: "tx", Addr: "0x2", Code: tx})
 				second = false
 				imports = "import " + C + " from 0x1\n"
+				if st.foreign || g.chance(1, 3) {
+					st.steps = append(st.steps, g.orphanSteps(st, imports)...)
+				}
 			} else {
 				st.steps = append(st.steps, dmStep{Kind: "script", Code: g.scriptCode(st, imports, second)})
 			}
@@ -198,6 +202,63 @@ func (g *dmGen) scenario() *dmScenario {
 	sc := &dmScenario{Kind: "scenario", Steps: st.steps}
 	sc.Features = g.features()
 	return sc
+}
+
+// orphanSteps: operations on stored values whose declaring contract was removed.
+func (g *dmGen) orphanSteps(st *dmScenState, imports string) []dmStep {
+	g.feat("stored-value-of-removed-contract")
+	var out []dmStep
+	for _, acct := range []string{"0x1", "0x3"} {
+		b := &dmBlk{}
+		for _, l := range strings.Split(strings.TrimSpace(imports), "\n") {
+			b.add(l)
+		}
+		b.open("transaction {")
+		b.open("prepare(s: %s) {", dmAcctAuth)
+		p := fmt.Sprintf("/storage/dr%d", g.r.Intn(2))
+		n := 2 + g.r.Intn(4)
+		for i := 0; i < n; i++ {
+			switch g.r.Intn(7) {
+			case 0:
+				b.add("log(s.storage.type(at: %s))", p)
+			case 1:
+				b.add("log(s.storage.check<@AnyResource>(from: %s))", p)
+			case 2:
+				r := g.fresh("br")
+				b.open("if let %s = s.storage.borrow<&AnyResource>(from: %s) {", r, p)
+				b.add("log(%s.getType().identifier)", r)
+				b.close()
+			case 3:
+				x := g.fresh("ld")
+				b.open("if let %s <- s.storage.load<@AnyResource>(from: %s) {", x, p)
+				if g.chance(1, 2) {
+					b.add("destroy %s", x)
+				} else {
+					b.add("s.storage.save(<-%s, to: /storage/dr9)", x)
+				}
+				b.close()
+			case 4:
+				b.open("s.storage.forEachStored(fun (path: StoragePath, ty: Type): Bool {")
+				b.add("log(ty.identifier)")
+				b.add("return true")
+				b.ind--
+				b.add("})")
+			case 5:
+				if g.res.riface != nil {
+					r := g.fresh("br")
+					b.open("if let %s = s.storage.borrow<&{%s}>(from: %s) {", r, g.res.riface.ref(), p)
+					b.add("log(%s.twice())", r)
+					b.close()
+				}
+			default:
+				b.add("log(s.storage.storagePaths)")
+			}
+		}
+		b.close()
+		b.close()
+		out = append(out, dmStep{Kind: "tx", Addr: acct, Code: b.String()})
+	}
+	return out
 }
 
 // secondContract: a contract importing C with composites implementing C's interfaces.
@@ -283,7 +344,17 @@ func (g *dmGen) txCode(st *dmScenState, imports string, second bool, withStore b
 		b.add(l)
 	}
 	b.open("transaction {")
+	txField := g.chance(1, 3)
+	if txField {
+		b.add("let cnt: Int")
+		b.add("var note: String?")
+		g.feat("transaction-fields")
+	}
 	b.open("prepare(s: %s) {", dmAcctAuth)
+	if txField {
+		b.add("self.cnt = %s.total", st.c)
+		b.add("self.note = nil")
+	}
 	s := &dmScope{ctx: &dmFctx{}}
 	Q := g.res.cont.t.String()
 	R := g.leafT().String()
@@ -513,7 +584,13 @@ func (g *dmGen) txCode(st *dmScenState, imports string, second bool, withStore b
 					x := g.fresh("dr")
 					b.add("let %s <- D1.makeDR()", x)
 					b.add("log(%s.twice())", x)
-					b.add("destroy %s", x)
+					if g.chance(1, 2) {
+						b.add("s.storage.save(<-%s, to: /storage/dr%d)", x, g.r.Intn(2))
+						st.foreign = true
+						g.feat("store-foreign-contract-value")
+					} else {
+						b.add("destroy %s", x)
+					}
 				}
 				g.feat("use-importing-contract")
 			} else {
@@ -528,7 +605,18 @@ func (g *dmGen) txCode(st *dmScenState, imports string, second bool, withStore b
 		}
 	}
 	b.close()
-	if g.chance(1, 3) {
+	if txField {
+		b.open("pre {")
+		b.add("self.cnt >= 0: \"cnt\"")
+		b.close()
+		b.open("execute {")
+		b.add("self.note = self.cnt.toString()")
+		b.add("log(self.note)")
+		b.close()
+		b.open("post {")
+		b.add("%s.total >= self.cnt: \"total\"", st.c)
+		b.close()
+	} else if g.chance(1, 3) {
 		b.open("execute {")
 		b.add("log(%s.total)", st.c)
 		b.close()
